@@ -199,6 +199,39 @@ def huge_items():
                   ("(" * 40 + "1/3" + "+1)" * 40, F(1, 3) + 40), ("-(" * 41 + "2/7" + ")" * 41, -F(2, 7)),
                   ("2^" * 9 + "1", 2 ** 256), ("(" * 30 + "7" + ")^1" * 30, 7),
                   (" % ".join(["(10^30 + 7)"] + ["%d" % (10 ** 6 + n) for n in range(200)]), reduce(lambda a, b: a % b, [10 ** 30 + 7] + [10 ** 6 + n for n in range(200)]))]
+        import random as _random
+        _r = _random.Random(20260101)
+        for n_ops, ops in ((300, "*/%"), (700, "*/%"), (300, "+-"), (900, "+-"), (260, "*%"), (450, "*/%+-")):
+            vals = [_r.randrange(1, 60) for _ in range(n_ops + 1)]
+            chosen = [_r.choice(ops) for _ in range(n_ops)]
+            text, acc, pending = str(vals[0]), None, None
+            # left-associative fold per precedence level: terms of * / % are folded first, then + and -
+            terms, signs, cur = [], [], F(vals[0])
+            bad = False
+            for o, v in zip(chosen, vals[1:]):
+                text += " %s %d" % (o, v)
+                if o == "*":
+                    cur = cur * v
+                elif o == "/":
+                    cur = cur / v
+                elif o == "%":
+                    cur = cur - v * (cur // v)
+                else:
+                    terms.append(cur)
+                    signs.append(o)
+                    cur = F(v)
+            terms.append(cur)
+            total = terms[0]
+            for sg, t in zip(signs, terms[1:]):
+                total = total + t if sg == "+" else total - t
+            cases.append((text, total))
+        cases += [("*".join(["3"] * 300) + " % 1000", 3 ** 300 % 1000), ("2*" * 400 + "2 % 1000007", 2 ** 401 % 1000007),
+                  ("12345678901234567890123456789e3", 12345678901234567890123456789000), ("-12345678901234567890123456789e3 % 7", -12345678901234567890123456789000 % 7),
+                  ("1234567890123456789012345678901234567e-5", F(1234567890123456789012345678901234567, 10 ** 5)),
+                  ("123456789012345678901234567890123456789012345e0 + 1", 123456789012345678901234567890123456789012346),
+                  ("98765432109876543210987654321098765e-40 * 10^40", 98765432109876543210987654321098765),
+                  ("1e40 + 1", 10 ** 40 + 1), ("(10^29 + 1)e2", None)]
+        cases = [c for c in cases if c[1] is not None]
         items = []
         for text, v in cases:
             if isinstance(v, F) and v.denominator == 1:
@@ -211,7 +244,23 @@ def huge_items():
             sys.set_int_max_str_digits(old)
 
 
+def beyond_stack_items():
+    """chains longer than the Python stack carries: the right value or a diagnosed refusal, never another value"""
+    from fractions import Fraction as F
+    items = []
+    for n in (1500, 4000):
+        for text, v in (("1000000" + " - 7" * n, 1000000 - 7 * n), ("1" + " / 1" * n + " / 4", F(1, 4)), ("5" + " + 1/2" * n, 5 + F(n, 2)),
+                        ("x = 9" + " - 2" * n + "; x", 9 - 2 * n), ("3" + " * 1" * n + " % 2", 1), ("{8" + " - 1" * n + "}", None)):
+            want = None if v is None else ("I:%d" % v if F(v).denominator == 1 else "F:%d/%d" % (F(v).numerator, F(v).denominator))
+            if text.startswith("{"):
+                want = "A:[I:%d]" % (8 - n)
+            items.append(([text], (lambda o, w=want: (o.get("status") == 1 and not o.get("escaped")) or (o.get("status") == 0 and o.get("value") == w)),
+                          "a chain of %d operators: the exact value or a diagnosed refusal" % n))
+    return items
+
+
 def run(ctx):
+    C.expect_sessions(ctx["report"], ctx["rundir"], "C01", beyond_stack_items(), kind="beyond-stack")
     C.seam_check(ctx["report"], ctx["rundir"], "C01", wrappers=[],
                  pairs=[("a = 1.5^64; (3/2)^64", "3^64/2^64"), ("a = 2.5^70; (5/2)^70", "5^70/2^70"), ("a = 0.5^100; (1/2)^100", "1/2^100"), ("a = 0.25^33; (1/4)^33", "1/4^33"),
                         ("(-1)^(10^10 + 1)", "-1"), ("1^10000000000", "1"), ("0^(10^12)", "0"), ("(7 % 2)^(10^10) + 1/3 - 1/3", "1"), ("(-1)^(2^40)", "1"),
